@@ -58,7 +58,7 @@ CHECKS = {
  "C19": dict(technique=DBE + " over four-body option files (26 spin structures, 6 lineshape tags per resonance, fixed/free couplings, spline / K-matrix / extra parameter families written in scrambled order) + the shipped model + the command-line entry point; both outputs read back into one structure, declared-before-use analysis, and execution of the Python output against a recording stand-in of goofit",
              text="For every file within the bound the C++ and Python outputs of the real converters must contain the same event type, constants, resonance variables, parameters, arrays and amplitudes (names, values, fixedness, spin factors, lineshapes and their arguments), every model symbol must be declared before use, the Python text must compile and run, and ret_output text must equal the printed text.",
              note="Known finding F9 (symbol sA_0 never declared for kMatrix lineshapes) is matched by signature and reported as KNOWN-FINDING; bound 2 / 3 deviations.", ref="3/C19"),
- "C20": dict(technique="explicit-state BFS over histories of read/convert calls (3 reader classes + 2 converters + 2 text-input readers x 4 option files = 28 operations), every history in a forked pristine process, state = fingerprint of the class-level sets/switches/tables; oracle = the same last call alone in a genuinely fresh interpreter; coverage-driven enumeration of PYTHONHASHSEED values until every iteration order of the 3-element string sets has been observed",
+ "C20": dict(technique="explicit-state BFS over histories of read/convert calls (3 reader classes + 2 converters + 2 text-input readers x 4 option files, plus both converters in print mode on 2 files = 32 operations), every history in a forked pristine process, state = fingerprint of the class-level sets/switches/tables; oracle = the same last call alone in a genuinely fresh interpreter; coverage-driven enumeration of PYTHONHASHSEED values until every iteration order of the 3-element string sets has been observed",
              text="All histories of length <=2 plus all 756 of the form (a, b, a) (length <=3 in thorough) are executed on the real classes; amplitudes, tables and the canonicalised output text of the last call must equal those of the call alone in a fresh interpreter. Fresh interpreters with successive hash seeds must give canonically equal output (and identical text for equal seeds) until all 6 orders of the spin-configuration and spline-array sets have been seen.",
              note="Pool of four option files (partial lines defined differently in two of them, a cartesian twin with equal structure and other numbers, K-matrix, splines); hash-order effects are covered through the permutations they can produce, not all 2^32 seeds.", ref="3/C20"),
  "C14": dict(technique="explicit-state BFS over call histories of the real DescriptorFormat (state hashing on config + hidden per-object state) against a stack reference model; second driver through real with-blocks",
